@@ -242,7 +242,9 @@ class Sequencer(object):
         # started last in each of the bars
         playing = []  # The NoteContainers being played.
 
-        while tick < bars[0].length - 0.00001:
+        # (a bar without a meter, (0, 0), lasts as long as what it holds)
+        end = bars[0].length or bars[0].current_beat
+        while tick < end - 0.00001:
             # Play the NoteContainers that are ready for it and have not been
             # started yet. The list `playing` holds the remaining duration and
             # the NoteContainer.
